@@ -15,6 +15,7 @@ from vf.core import TranslatorError
 
 OUT = "gen/CsvGen.v"
 OUT4 = "gen/Csv4Gen.v"          # round 4: the frequency -> span table of the exporter, the merge loop
+OUT5 = "gen/Csv5Gen.v"          # round 5: how the exporter reads the data of a block (per selected period)
 
 
 def _parse(rel: str) -> ast.Module:
@@ -308,7 +309,98 @@ def generate4() -> str:
     ])
 
 
+# ---------------------------------------------------------------------- round 5 fragment
+
+def _data_access() -> str:
+    """_get_data_array_for_names and its use in _ExportBlock.__iter__: the statements are compared with the shapes
+    modelled by model/Csv5.v (hstack of one array per name, an empty lead with one row per period, the rows paired with
+    the periods by zip); the expression that reads the data of ONE series for the periods of the block is translated
+    (only calls of Series.get_data / Series.get_data_from_until on self[n] whose arguments are built from `periods`)."""
+    mod = _parse("irispie/databoxes/_exports.py")
+    fn = _find(mod.body, ast.FunctionDef, "_get_data_array_for_names")
+    args = [a.arg for a in fn.args.posonlyargs + fn.args.args]
+    if args != ["self", "names", "periods"] or fn.args.vararg or fn.args.kwarg or fn.args.kwonlyargs:
+        raise TranslatorError(f"_get_data_array_for_names: unexpected parameters {args}")
+    body = _body(fn)
+    if len(body) != 2 or not isinstance(body[0], ast.Assign) or not isinstance(body[1], ast.Return):
+        raise TranslatorError("_get_data_array_for_names: expected `empty_lead = ...; return _np.hstack(...)`")
+    _expect("_get_data_array_for_names: empty lead", body[0], "empty_lead=_np.empty((len(periods),0),dtype=_np.float64)")
+    ret = body[1].value
+    ok = (isinstance(ret, ast.Call) and _norm(ret.func) == "_np.hstack" and len(ret.args) == 1 and not ret.keywords
+          and isinstance(ret.args[0], ast.BinOp) and isinstance(ret.args[0].op, ast.Add)
+          and _norm(ret.args[0].left) == "[empty_lead]" and isinstance(ret.args[0].right, ast.ListComp))
+    if not ok:
+        raise TranslatorError("_get_data_array_for_names: expected `return _np.hstack([empty_lead] + [<data of n> for n in names])`, "
+                              f"source has `{_norm(body[1])}`")
+    comp = ret.args[0].right
+    if (len(comp.generators) != 1 or _norm(comp.generators[0].target) != "n" or _norm(comp.generators[0].iter) != "names"
+            or comp.generators[0].ifs or comp.generators[0].is_async):
+        raise TranslatorError("_get_data_array_for_names: expected one generator `for n in names` without a condition")
+    elt = comp.elt
+    if not (isinstance(elt, ast.Call) and isinstance(elt.func, ast.Attribute) and _norm(elt.func.value) == "self[n]"
+            and not elt.keywords):
+        raise TranslatorError(f"_get_data_array_for_names: the data of one series is not a method call on self[n]: `{_norm(elt)}`")
+
+    def per(node) -> str:
+        # expressions over `periods` that the model knows: the tuple itself, its first and its last element
+        t = _norm(node)
+        if t == "periods":
+            return "periods"
+        if t == "periods[0]":
+            return "(hd 0 periods)"
+        if t == "periods[-1]":
+            return "(last periods 0)"
+        raise TranslatorError(f"_get_data_array_for_names: unknown argument `{t}`")
+
+    if elt.func.attr == "get_data" and len(elt.args) == 1:
+        expr = f"get_data {per(elt.args[0])}"
+    elif (elt.func.attr == "get_data_from_until" and len(elt.args) == 1 and isinstance(elt.args[0], ast.Tuple)
+          and len(elt.args[0].elts) == 2):
+        expr = f"get_data_from_until {per(elt.args[0].elts[0])} {per(elt.args[0].elts[1])}"
+    else:
+        raise TranslatorError(f"_get_data_array_for_names: unknown accessor `{_norm(elt)}`")
+    # the use in _ExportBlock.__iter__
+    blk = _find(mod.body, ast.ClassDef, "_ExportBlock")
+    src = _norm(_find(blk.body, ast.FunctionDef, "__iter__"))
+    for frag, what in [
+        ("data_array=_get_data_array_for_names(self.databox,self.names,self.periods)", "data array"),
+        ("fordate,data_rowinzip(self.periods,data_array):", "pairing of periods and data rows"),
+        ("num_data_columns=_get_num_data_columns_for_names(self.databox,self.names)", "column counts"),
+    ]:
+        if frag not in src:
+            raise TranslatorError(f"_ExportBlock.__iter__: the {what} statement changed (expected `{frag}`)")
+    nc = _find(mod.body, ast.FunctionDef, "_get_num_data_columns_for_names")
+    _expect("_get_num_data_columns_for_names", _body(nc)[-1], "return tuple((self[n].shape[1] for n in names))")
+    # to_csv_file: one block per frequency with that frequency's periods
+    inl = _find(mod.body, ast.ClassDef, "Inlay")
+    tc = _norm(_find(inl.body, ast.FunctionDef, "to_csv_file"))
+    for frag in ["export_block_constructor(frequency=f,periods=frequency_span[f],names=frequency_names[f])",
+                 "forfinfrequency_span.keys()iffrequency_names[f]", "forrowinzip(*export_blocks):"]:
+        if frag not in tc:
+            raise TranslatorError(f"to_csv_file: expected `{frag}`")
+    return expr
+
+
+def generate5() -> str:
+    expr = _data_access()
+    return "\n".join([
+        "(* GENERATED by translator/csvfmt.py (round 5) from databoxes/_exports.py: _get_data_array_for_names.",
+        "   Do not edit. *)",
+        "From Coq Require Import ZArith List.",
+        "Import ListNotations.",
+        "Open Scope Z_scope.",
+        "",
+        "(* the data the exporter reads for ONE series of a block, given the block's periods: the element expression of",
+        "   the list comprehension under _np.hstack, over the two accessors of the series (model/Series.v: get_data,",
+        "   get_data_from_until) *)",
+        "Definition export_rows_of {R : Type} (get_data : list Z -> R) (get_data_from_until : Z -> Z -> R)",
+        f"  (periods : list Z) : R := {expr}.",
+        "",
+    ])
+
+
 def run() -> bool:
     a = core.write_if_changed(core.COQ / OUT, generate())
     b = core.write_if_changed(core.COQ / OUT4, generate4())
-    return a or b
+    c = core.write_if_changed(core.COQ / OUT5, generate5())
+    return a or b or c
